@@ -8,7 +8,7 @@ SPEC = {
     "lean_modules": ["PallasVerif.Props.C27"],
     "required_theorems": ["promo_inv", "promo_inv_of_run", "sets_consistent", "banned_never_connected", "banned_forever",
                           "ban_command_bans", "violation_bans", "error_threshold_bans"],
-    "streams": [{"name": "p2p_promo", "quick": 400, "thorough": 6000}],
+    "streams": [{"name": "p2p_promo", "quick": 500, "thorough": 20000}],
     "rule": "histories of InitiatorBehavior commands/events (cfg + 8..200 ops over 3, 6 or 20 peers, limits 1..4/1..2/1..2 for the "
             "small cases; include, hk/idle, connected, handshake, ban, demote, disconnected, error, violating and valid messages, "
             "peer-sharing discovery; thorough adds all 13-symbol histories of length <= 4 over 2 peers with limits 2/1/1 and the "
